@@ -441,7 +441,8 @@ impl<M> Default for Common<M> {
     /// Create a builder representing an entity with no components
     fn default() -> Self {
         Self {
-            storage: NonNull::dangling(),
+            // Aligned like `layout` so that zero-sized components can live at offset 0
+            storage: NonNull::<u64>::dangling().cast(),
             layout: Layout::from_size_align(0, 8).unwrap(),
             cursor: 0,
             info: Vec::new(),
